@@ -13,13 +13,17 @@
      `_resolve_tendon_lengthspring`, `_compute_meaninertia`, `_set_unit_vector`, `_extract_dof_A_diag`,
      `_finalize_dof_invweight0`, `_compute_body_A_diag_entry`, `_finalize_body_invweight0`,
      `_compute_tendon_dot_product`, `_compute_cam_pos0`, `_compute_light_pos0`, `_compute_actuator_acc0`,
-     `_compute_dof_M0`, `_resolve_dampratio`, `_set_length_range`, `_compute_eq_data0` (connect / weld, all branches).
+     `_compute_dof_M0`, `_resolve_dampratio`, `_set_length_range`, `_compute_eq_data0` (connect / weld, all branches),
+     `_copy_tendon_jacobian`, `_copy_actuator_moment`.
   §3 laws: stored diagonal entries `J·r` are ≥ 0 when `r` solves `M r = J` with `M` positive semidefinite; hence
      dof/body invweight0 ≥ 0 and the degenerate-component fallback; actuator_acc0 ≥ 0; `_resolve_dampratio`
      writes `-(2·ratio·sqrt(kp·mass)) ≤ 0`, is idempotent, and never touches non-affine / explicit-kv actuators;
-     length ranges are ordered for either gear sign.
+     the recomputed connect / weld anchor satisfies the constraint at qpos0; length ranges are ordered for either gear sign.
   §4 per-world independence: the task of world `w` of every kernel reads only row `w` of Data/temporary arrays and
-     row `w % shape0` of Model arrays (by `rfl`), and its writes go to row `w` resp. `w % shape0` (visible in §2).
+     row `w % shape0` of Model arrays (by `rfl`), and its writes go to row `w` resp. `w % X.shape0` of the array X
+     written (visible in §2; for the camera / light references, whose three outputs may be batched differently, this
+     is `cam_light_ref_slices` + `ref_slice_covered` — false before /repo commit "fix: set_const indexed cam_poscom0,
+     cam_mat0, light_poscom0 and light_dir0 with another field's batch size", found by this property).
   §5 host bracket (hand model): for all states and all three entry points `qpos` and every non-position Data
      field are unchanged; with `restore` the position fields equal the full forward-kinematics pass of the FINAL
      model at the caller's qpos, so Data is unchanged whenever it was consistent with the final model; the final
@@ -28,10 +32,12 @@
   ASSUMED / trusted: the translator; `smooth.*` stages and `solve_m` are uninterpreted in §5 (`Sem`) — their own
   correctness is C01/C02 territory; in §3 "r solves M r = J" is a hypothesis (factor_m/solve_m are not re-proved here).
 
-  MISSING (why partial): `_compute_body_jac_row`, `_copy_tendon_jacobian`, `_copy_actuator_moment` have only the
-  world-locality statement (their `while`/scatter loops are not given closed forms); equality of the derived fields
-  with MuJoCo C on whole models is sampled by the oracle, not proved (needs kinematics + factorisation end to end).
-  The literal statement is FALSE for cameras / lights in a tracking or targeting mode: see Props/C33Witness.lean.
+  MISSING (why partial): `_compute_body_jac_row` has only the world-locality statement (its two `while` loops over the
+  body / dof ancestor chains are not given a closed form); equality of the derived fields with MuJoCo C on whole
+  models is sampled by the oracle, not proved (needs kinematics + factorisation end to end).
+  The literal statement is FALSE (Props/C33Witness.lean): cameras / lights in a tracking or targeting mode; the
+  degenerate-component fallback of `body_invweight0` (`finalize_body_invweight0_spec` states what the code does — MuJoCo
+  ≥ 3.11 has no such fallback); and in binary32 the dampratio guard `|moment| > 1e-15` lets round-off through.
 
   NOTE on `1/3`: Python's `wp.static(1.0/3.0)` reaches Lean as the decimal 0.3333333333333333 (`Lemmas.C33.third`,
   |third − 1/3| ≤ 1e-16, `third_close`); binary32 rounds both to the same float.
@@ -198,8 +204,9 @@ theorem body_A_diag_entry_spec (nv b row : Int) (J r : Int → Int → ℝ) (out
   rw [zero_add] at hs
   exact congrArg (fun x => [Write.mk "body_A_diag_out" [Int.tmod w s, b, row] (WVal.f x) WKind.set]) hs
 
-/-- `body_invweight0` (MuJoCo `set0`): zero for the world and static bodies, otherwise the two means with the
-    degenerate-component fallback -/
+/-- `body_invweight0`: zero for the world and static bodies, otherwise the two means of MuJoCo's `set0` PLUS a
+    degenerate-component fallback (`Lemmas.C33.bodyInvweight`) that current MuJoCo does not apply — see
+    `body_invweight0_fallback_witness` -/
 theorem finalize_body_invweight0_spec (weldid : Int → Int) (A : Int → Int → Int → ℝ) (out : Int → Int → V2 ℝ)
     (so sa w b : Int) :
     _finalize_body_invweight0 weldid A out so sa w b
@@ -230,35 +237,88 @@ theorem tendon_dot_product_spec (rownnz rowadr colind : Int → Int) (t : Int) (
   rw [zero_add] at hs
   exact congrArg (fun x => [Write.mk "tendon_invweight0_out" [Int.tmod w s, t] (WVal.f x) WKind.set]) hs
 
+/-- the dense right-hand side of a tendon solve: the CSR row of `ten_J` scattered into a (host-zeroed) vector -/
+theorem copy_tendon_jacobian_spec {K : Type} [Scalar K] (t : Int) (rownnz rowadr colind : Int → Int)
+    (J out : Int → Int → K) (s2 w : Int) :
+    _copy_tendon_jacobian t rownnz rowadr colind J out s2 w
+      = (List.range (rownnz t).toNat).flatMap (fun (k : Nat) =>
+          [Write.mk "ten_J_vec_out" [w, colind (rowadr t + Int.ofNat k)]
+            (WVal.f (J w (rowadr t + Int.ofNat k))) WKind.set]) := by
+  unfold _copy_tendon_jacobian
+  exact (forRange_append (rownnz t) [] (fun i =>
+    [Write.mk "ten_J_vec_out" [w, colind (rowadr t + i)] (WVal.f (J w (rowadr t + i))) WKind.set])).trans
+    (List.nil_append _)
+
+/-- the dense right-hand side of an actuator solve: `nv` zero stores, then the CSR row of `actuator_moment`
+    scattered (later stores win) -/
+theorem copy_actuator_moment_spec {K : Type} [Scalar K] (a : Int) (rownnz rowadr colind : Int → Int → Int)
+    (moment out : Int → Int → K) (nv w : Int) :
+    _copy_actuator_moment a rownnz rowadr colind moment out nv w
+      = (List.range nv.toNat).flatMap (fun (k : Nat) =>
+          [Write.mk "act_moment_vec_out" [w, Int.ofNat k] (WVal.f (Scalar.lit 0 0 : K)) WKind.set])
+        ++ (List.range (rownnz w a).toNat).flatMap (fun (k : Nat) =>
+          [Write.mk "act_moment_vec_out" [w, colind w (rowadr w a + Int.ofNat k)]
+            (WVal.f (moment w (rowadr w a + Int.ofNat k))) WKind.set]) := by
+  unfold _copy_actuator_moment
+  have h1 := (forRange_append nv ([] : List (Write K)) (fun i =>
+    [Write.mk "act_moment_vec_out" [w, i] (WVal.f (Scalar.lit 0 0 : K)) WKind.set])).trans (List.nil_append _)
+  refine Eq.trans ?_ (congrArg (fun l => l ++ (List.range (rownnz w a).toNat).flatMap (fun (k : Nat) =>
+          [Write.mk "act_moment_vec_out" [w, colind w (rowadr w a + Int.ofNat k)]
+            (WVal.f (moment w (rowadr w a + Int.ofNat k))) WKind.set])) h1)
+  exact forRange_append (rownnz w a) _ (fun i =>
+    [Write.mk "act_moment_vec_out" [w, colind w (rowadr w a + i)] (WVal.f (moment w (rowadr w a + i))) WKind.set])
+
 /-- camera references: offsets of the camera position from its body / from the subtree COM of its target (or body),
-    and its orientation, as found in Data.  NOTE all three outputs use `cam_pos0`'s batch size. -/
+    and its orientation, as found in Data.  Each output is written in ITS OWN batch slice `w % X.shape[0]`
+    (repaired in /repo commit "fix: set_const indexed cam_poscom0, cam_mat0, light_poscom0 and light_dir0 with another
+    field's batch size"; the defect was found by this property's former `cam_ref_batch_index_witness`). -/
 theorem cam_pos0_spec {K : Type} [Scalar K] (cam_bodyid cam_target : Int → Int) (camx : Int → Int → V3 K)
-    (camm : Int → Int → M33 K) (xpos com o1 o2 : Int → Int → V3 K) (o3 : Int → Int → M33 K) (s w c : Int) :
-    _compute_cam_pos0 cam_bodyid cam_target camx camm xpos com o1 o2 o3 s w c
-      = [Write.mk "cam_pos0_out" [Int.tmod w s, c]
+    (camm : Int → Int → M33 K) (xpos com o1 o2 : Int → Int → V3 K) (o3 : Int → Int → M33 K) (s1 s2 s3 w c : Int) :
+    _compute_cam_pos0 cam_bodyid cam_target camx camm xpos com o1 o2 o3 s1 s2 s3 w c
+      = [Write.mk "cam_pos0_out" [Int.tmod w s1, c]
            (WVal.v (V3.toList (V3.sub (camx w c) (xpos w (cam_bodyid c))))) WKind.set,
-         Write.mk "cam_poscom0_out" [Int.tmod w s, c]
+         Write.mk "cam_poscom0_out" [Int.tmod w s2, c]
            (WVal.v (V3.toList (V3.sub (camx w c)
              (com w (if cam_target c ≥ 0 then cam_target c else cam_bodyid c))))) WKind.set,
-         Write.mk "cam_mat0_out" [Int.tmod w s, c] (WVal.v (M33.toList (camm w c))) WKind.set] := by
+         Write.mk "cam_mat0_out" [Int.tmod w s3, c] (WVal.v (M33.toList (camm w c))) WKind.set] := by
   unfold _compute_cam_pos0
   by_cases h : cam_target c ≥ 0
   · simp [h]
   · simp [h]
 
 theorem light_pos0_spec {K : Type} [Scalar K] (light_bodyid light_target : Int → Int)
-    (lx ldir xpos com o1 o2 o3 : Int → Int → V3 K) (s w l : Int) :
-    _compute_light_pos0 light_bodyid light_target lx ldir xpos com o1 o2 o3 s w l
-      = [Write.mk "light_pos0_out" [Int.tmod w s, l]
+    (lx ldir xpos com o1 o2 o3 : Int → Int → V3 K) (s1 s2 s3 w l : Int) :
+    _compute_light_pos0 light_bodyid light_target lx ldir xpos com o1 o2 o3 s1 s2 s3 w l
+      = [Write.mk "light_pos0_out" [Int.tmod w s1, l]
            (WVal.v (V3.toList (V3.sub (lx w l) (xpos w (light_bodyid l))))) WKind.set,
-         Write.mk "light_poscom0_out" [Int.tmod w s, l]
+         Write.mk "light_poscom0_out" [Int.tmod w s2, l]
            (WVal.v (V3.toList (V3.sub (lx w l)
              (com w (if light_target l ≥ 0 then light_target l else light_bodyid l))))) WKind.set,
-         Write.mk "light_dir0_out" [Int.tmod w s, l] (WVal.v (V3.toList (ldir w l))) WKind.set] := by
+         Write.mk "light_dir0_out" [Int.tmod w s3, l] (WVal.v (V3.toList (ldir w l))) WKind.set] := by
   unfold _compute_light_pos0
   by_cases h : light_target l ≥ 0
   · simp [h]
   · simp [h]
+
+/-- **per-field batch slices** (the statement that was false before the repair): the task of world `w` addresses every
+    camera / light reference field `X` in slice `w % X.shape[0]` — for ANY combination of batch sizes of the three
+    fields — and nothing else. -/
+theorem cam_light_ref_slices {K : Type} [Scalar K] (bodyid target : Int → Int) (camx : Int → Int → V3 K)
+    (camm : Int → Int → M33 K) (ldir xpos com o1 o2 o3' : Int → Int → V3 K) (o3 : Int → Int → M33 K)
+    (s1 s2 s3 w c : Int) :
+    (_compute_cam_pos0 bodyid target camx camm xpos com o1 o2 o3 s1 s2 s3 w c).map (fun x => (x.arr, x.idx))
+      = [("cam_pos0_out", [Int.tmod w s1, c]), ("cam_poscom0_out", [Int.tmod w s2, c]),
+         ("cam_mat0_out", [Int.tmod w s3, c])]
+    ∧ (_compute_light_pos0 bodyid target camx ldir xpos com o1 o2 o3' s1 s2 s3 w c).map (fun x => (x.arr, x.idx))
+      = [("light_pos0_out", [Int.tmod w s1, c]), ("light_poscom0_out", [Int.tmod w s2, c]),
+         ("light_dir0_out", [Int.tmod w s3, c])] := by
+  rw [cam_pos0_spec, light_pos0_spec]
+  exact ⟨rfl, rfl⟩
+
+/-- … hence with the launch over `max(shape[0])` worlds every slice `i < X.shape[0]` of every field is written by the
+    task of world `i` with world `i`'s data (no slice stays stale, none is out of range): `i % n = i`. -/
+theorem ref_slice_covered (i n : Int) (h0 : 0 ≤ i) (hn : i < n) : Int.tmod i n = i :=
+  Int.tmod_eq_of_lt h0 hn
 
 /-- `actuator_acc0 = ‖M⁻¹ momentᵀ‖` -/
 theorem actuator_acc0_spec (a nv : Int) (r out : Int → Int → ℝ) (w : Int) :
@@ -538,6 +598,34 @@ theorem dampratio_critical (kp m : ℝ) (hk : 0 ≤ kp) (hm : 0 ≤ m) :
   have h := Real.sq_sqrt (mul_nonneg hk hm)
   nlinarith [h]
 
+/-- **the recomputed connect anchor satisfies the constraint at qpos0**: with `a₂ = R₂ᵀ (x₁ + R₁ a₁ − x₂)` as stored by
+    `_compute_eq_data0` (`eq_data0_connect_body`) and `R₂` a rotation (orthonormal rows, `R₂ R₂ᵀ = 1`), both anchors are the
+    same world point: `x₂ + R₂ a₂ = x₁ + R₁ a₁` (the connect residual `pos1 − pos2` of constraint.py is 0).
+    The weld case (`eq_data0_weld_compute`) is the same statement with the bodies exchanged. -/
+theorem connect_satisfied_at_qpos0 (x1 x2 a1 : V3 ℝ) (R1 R2 : M33 ℝ)
+    (h00 : R2.m00 * R2.m00 + R2.m01 * R2.m01 + R2.m02 * R2.m02 = 1)
+    (h11 : R2.m10 * R2.m10 + R2.m11 * R2.m11 + R2.m12 * R2.m12 = 1)
+    (h22 : R2.m20 * R2.m20 + R2.m21 * R2.m21 + R2.m22 * R2.m22 = 1)
+    (h01 : R2.m00 * R2.m10 + R2.m01 * R2.m11 + R2.m02 * R2.m12 = 0)
+    (h02 : R2.m00 * R2.m20 + R2.m01 * R2.m21 + R2.m02 * R2.m22 = 0)
+    (h12 : R2.m10 * R2.m20 + R2.m11 * R2.m21 + R2.m12 * R2.m22 = 0) :
+    V3.add x2 (M33.mulVec R2 (M33.mulVec (M33.transpose R2)
+        (V3.sub (V3.add x1 (M33.mulVec R1 a1)) x2)))
+      = V3.add x1 (M33.mulVec R1 a1) := by
+  apply V3.ext' <;> simp only [V3.add, V3.sub, M33.mulVec, M33.transpose, hadd, hsub, hmul]
+  · linear_combination
+      ((x1.c0 + (R1.m00 * a1.c0 + R1.m01 * a1.c1 + R1.m02 * a1.c2)) - x2.c0) * h00
+      + ((x1.c1 + (R1.m10 * a1.c0 + R1.m11 * a1.c1 + R1.m12 * a1.c2)) - x2.c1) * h01
+      + ((x1.c2 + (R1.m20 * a1.c0 + R1.m21 * a1.c1 + R1.m22 * a1.c2)) - x2.c2) * h02
+  · linear_combination
+      ((x1.c0 + (R1.m00 * a1.c0 + R1.m01 * a1.c1 + R1.m02 * a1.c2)) - x2.c0) * h01
+      + ((x1.c1 + (R1.m10 * a1.c0 + R1.m11 * a1.c1 + R1.m12 * a1.c2)) - x2.c1) * h11
+      + ((x1.c2 + (R1.m20 * a1.c0 + R1.m21 * a1.c1 + R1.m22 * a1.c2)) - x2.c2) * h12
+  · linear_combination
+      ((x1.c0 + (R1.m00 * a1.c0 + R1.m01 * a1.c1 + R1.m02 * a1.c2)) - x2.c0) * h02
+      + ((x1.c1 + (R1.m10 * a1.c0 + R1.m11 * a1.c1 + R1.m12 * a1.c2)) - x2.c1) * h12
+      + ((x1.c2 + (R1.m20 * a1.c0 + R1.m21 * a1.c1 + R1.m22 * a1.c2)) - x2.c2) * h22
+
 /-- length ranges are ordered (`lo ≤ hi`) for ordered limits, for positive, zero and negative gear -/
 theorem length_range_ordered (gear : ℝ) (rng : V2 ℝ) (h : rng.c0 ≤ rng.c1) :
     (lengthRange gear rng).c0 ≤ (lengthRange gear rng).c1 := lengthRange_ordered gear rng h
@@ -608,16 +696,16 @@ theorem eq_data0_world_local {K : Type} [Scalar K] (eq_type obj1 obj2 objtype : 
           (fun _ => data (Int.tmod w s)) s w e := rfl
 
 theorem cam_pos0_world_local {K : Type} [Scalar K] (cam_bodyid cam_target : Int → Int) (camx : Int → Int → V3 K)
-    (camm : Int → Int → M33 K) (xpos com o1 o2 : Int → Int → V3 K) (o3 : Int → Int → M33 K) (s w c : Int) :
-    _compute_cam_pos0 cam_bodyid cam_target camx camm xpos com o1 o2 o3 s w c
+    (camm : Int → Int → M33 K) (xpos com o1 o2 : Int → Int → V3 K) (o3 : Int → Int → M33 K) (s1 s2 s3 w c : Int) :
+    _compute_cam_pos0 cam_bodyid cam_target camx camm xpos com o1 o2 o3 s1 s2 s3 w c
       = _compute_cam_pos0 cam_bodyid cam_target (fun _ => camx w) (fun _ => camm w) (fun _ => xpos w)
-          (fun _ => com w) o1 o2 o3 s w c := rfl
+          (fun _ => com w) o1 o2 o3 s1 s2 s3 w c := rfl
 
 theorem light_pos0_world_local {K : Type} [Scalar K] (light_bodyid light_target : Int → Int)
-    (lx ldir xpos com o1 o2 o3 : Int → Int → V3 K) (s w l : Int) :
-    _compute_light_pos0 light_bodyid light_target lx ldir xpos com o1 o2 o3 s w l
+    (lx ldir xpos com o1 o2 o3 : Int → Int → V3 K) (s1 s2 s3 w l : Int) :
+    _compute_light_pos0 light_bodyid light_target lx ldir xpos com o1 o2 o3 s1 s2 s3 w l
       = _compute_light_pos0 light_bodyid light_target (fun _ => lx w) (fun _ => ldir w) (fun _ => xpos w)
-          (fun _ => com w) o1 o2 o3 s w l := rfl
+          (fun _ => com w) o1 o2 o3 s1 s2 s3 w l := rfl
 
 theorem meaninertia_world_local {K : Type} [Scalar K] (nv : Int) (rownnz rowadr : Int → Int) (M : Int → Int → K)
     (out : Int → K) (s w : Int) :
@@ -740,6 +828,13 @@ example : ∃ (M : Nat → Nat → ℝ) (J r : Int → Int → ℝ),
   · intro x
     simp [Finset.sum_range_succ]
     nlinarith [mul_self_nonneg (x 0), mul_self_nonneg (x 1)]
+
+/-- the identity is a rotation: hypotheses of `connect_satisfied_at_qpos0` are satisfiable -/
+example : let R : M33 ℝ := ⟨1, 0, 0, 0, 1, 0, 0, 0, 1⟩
+    R.m00 * R.m00 + R.m01 * R.m01 + R.m02 * R.m02 = 1 ∧ R.m10 * R.m10 + R.m11 * R.m11 + R.m12 * R.m12 = 1
+    ∧ R.m20 * R.m20 + R.m21 * R.m21 + R.m22 * R.m22 = 1 ∧ R.m00 * R.m10 + R.m01 * R.m11 + R.m02 * R.m12 = 0
+    ∧ R.m00 * R.m20 + R.m01 * R.m21 + R.m02 * R.m22 = 0 ∧ R.m10 * R.m20 + R.m11 * R.m21 + R.m12 * R.m22 = 0 := by
+  norm_num
 
 /-- `eq_data0_weld_keep` / `eq_data0_weld_compute`: both guards occur over ℝ -/
 example : Scalar.gt (Q.lengthSq (⟨1, 0, 0, 0⟩ : Q ℝ)) (Scalar.lit 0 0 : ℝ) = true
